@@ -294,3 +294,15 @@ def devices_sharing_an_address_see_the_same_with_and_without_the_table(kind, ste
         assert plain == eager, (kind, steps, plain, eager)
 
     asyncio.run(go())
+
+
+# ------------------------------------------------------------------ the decoder outcomes the lemmas above range over
+# eager_decoding_sets_exactly_the_decoded_value lets the configured transcoder return a value or raise one of its
+# two declared errors (fails = 0, 1, 2). That every real transcoder has no third outcome - an undeclared
+# exception would leave set_decoded_data and end the telegram consumer, so that devices see nothing at all with
+# the table and everything without it - is proved per datapoint type in C07; an obligation here too.
+
+from contracts import c07_dpt_decode as _c07  # noqa: E402
+from pyvc.api import rely_on  # noqa: E402
+
+rely_on("C38", _c07.dpt_from_knx_declared_errors)
